@@ -22,6 +22,7 @@ import (
 	"time"
 
 	"github.com/pilosa/pilosa"
+	"github.com/pilosa/pilosa/encoding/proto"
 	vk "github.com/pilosa/pilosa/internal/verifkit"
 	"github.com/pilosa/pilosa/roaring"
 	"github.com/pilosa/pilosa/test"
@@ -60,7 +61,7 @@ func c29Mask(field string, cols []uint64) uint64 {
 func TestVerifC29(t *testing.T) {
 	r := vk.Start(t, "C29")
 	defer r.Finish()
-	for _, o := range []string{"set", "clear", "clearrow", "row", "count", "import", "importclear", "bg:store", "bg:topn", "bg:rows", "bg:sum", "bg:recalc", "bg:flush", "bg:snapshot", "bg:intset", "bg:topn-ids", "bg:importvalue"} {
+	for _, o := range []string{"set", "clear", "clearrow", "row", "count", "import", "importclear", "bg:store", "bg:topn", "bg:rows", "bg:sum", "bg:recalc", "bg:flush", "bg:snapshot", "bg:intset", "bg:topn-ids", "bg:importvalue", "bg:peer-createfield"} {
 		r.Expect("op:" + o)
 	}
 	var hookN uint64
@@ -89,6 +90,7 @@ func TestVerifC29(t *testing.T) {
 	os.MkdirAll(histDir, 0o755)
 	nIdx := 0
 	var clock int64
+	var peerFields int64
 
 	n := r.N(240, 8000)
 	r.Cases("hist", n, func(i int, id string, rng *vk.Rand) {
@@ -229,8 +231,8 @@ func TestVerifC29(t *testing.T) {
 						}
 					default:
 						// background traffic on the same fragments / fields, not part of the lin history
-						bg := rng.Intn(13)
-						names := []string{"store", "topn", "rows", "sum", "recalc", "flush", "snapshot", "intset", "topn-ids", "topn-ids", "topn-ids", "importvalue", "importvalue"}
+						bg := rng.Intn(14)
+						names := []string{"store", "topn", "rows", "sum", "recalc", "flush", "snapshot", "intset", "topn-ids", "topn-ids", "topn-ids", "importvalue", "importvalue", "peer-createfield"}
 						r.Cover("op:bg:" + names[bg])
 						var err error
 						switch bg {
@@ -261,6 +263,15 @@ func TestVerifC29(t *testing.T) {
 								req.Values = append(req.Values, int64(rng.Intn(2001)-1000))
 							}
 							err = m.API.ImportValue(ctx, req)
+						case 13:
+							// what a peer broadcasts when a field is created there: the message handler runs on its own
+							// goroutine, concurrently with the queries that look fields up in the same index
+							msg := &pilosa.CreateFieldMessage{Index: index, Field: fmt.Sprintf("pf%d", atomic.AddInt64(&peerFields, 1)),
+								Meta: &pilosa.FieldOptions{Type: pilosa.FieldTypeSet, CacheType: pilosa.CacheTypeRanked, CacheSize: 10}}
+							var b []byte
+							if b, err = pilosa.MarshalInternalMessage(msg, proto.Serializer{}); err == nil {
+								err = m.API.ClusterMessage(ctx, bytes.NewReader(b))
+							}
 						default:
 							// explicit ids: counts are read from the fragment's count cache without the fragment lock
 							_, err = query(fmt.Sprintf("TopN(%s, ids=[0,1,2,3])", field))
